@@ -31,7 +31,7 @@ def worker_init(tier):
 def BOUNDS(tier):
     q = tier == "quick"
     return dict(inputs="knotted members of M(N<=%d) and D(K<=%d); unknotted members of M(N<=5) once per configuration" % ((8, 3) if q else (10, 4)),
-                configurations=30, fault_sequences="all sequences of length <= %d over 6 behaviours + None on one object" % (2 if q else 3))
+                configurations=37, fault_sequences="all sequences of length <= %d over 6 behaviours + None on one object" % (2 if q else 3))
 
 
 def _knotted(gen, want=True):
@@ -64,6 +64,12 @@ def configurations():
     for beh in B:
         yield ("default", beh)
     yield ("default", "none")
+    # a solver that claims an optimum it does not have (status Optimal, no proper assignment behind it): it cannot deliver an optimal solution, so FCFS
+    for kind in ("arg", "highs", "default"):
+        for beh in ("claims-optimal-zeros", "claims-optimal-level0"):
+            yield (kind, beh)
+    # the bundled CBC stopped by an iteration limit of 0 (a real back-end, not a stand-in)
+    yield ("arg", "cbc-maxit0")
     # a solver that stops without an optimum and leaves every variable unassigned (value None, objective None) - what HiGHS_CMD does when it returns early
     for kind in ("arg", "highs", "default"):
         for beh in ("not_solved", "infeasible", "undefined"):
@@ -74,7 +80,12 @@ def execute(case, conf):
     """One execution; returns (result-or-exc, solver_calls)."""
     kind, beh = conf
     b = build(case)
-    solver = seams.FaultSolver([beh]) if beh in seams.BEHAVIOURS else (seams.FaultSolver([beh.split("-")[0]], garbage=False) if beh.endswith("-unassigned") else None)
+    solver = seams.FaultSolver([beh]) if (beh in seams.BEHAVIOURS or beh.startswith("claims-optimal")) else (seams.FaultSolver([beh.split("-")[0]], garbage=False) if beh.endswith("-unassigned") else None)
+    if beh == "cbc-maxit0":
+        import pulp
+
+        r = observe(b.convert_to_dot_bracket, pulp.PULP_CBC_CMD(msg=False, options=["maxIt 0"]))
+        return b, r, 1
     if kind == "arg":
         r = observe(b.convert_to_dot_bracket, solver)
     elif kind == "highs":
@@ -104,7 +115,13 @@ def _judge(case, seq, stems, graph, fc, opt, beh_effective, r, tag, out, b):
     if probs:
         out.append(viol("corrupt:%s" % beh_effective, "%s: result is not a lossless encoding: %s" % (tag, "; ".join(probs)[:200]), d.structure, None))
         return "corrupt"
-    if beh_effective != "ok":
+    if beh_effective == "real-cbc-stopped":
+        # a real back-end under an iteration limit: it may or may not reach the optimum; the answer is the optimal notation or the FCFS one
+        dec = ref2d.decode(d.structure)[0]
+        lev = ref2d.stem_levels(stems, dec)
+        if d.structure != fc and (None in lev or ref2d.objective(stems, lev) != opt):
+            out.append(viol("stopped-solver:neither-optimal-nor-fcfs", "%s: the notation is neither optimal nor the FCFS one" % tag, d.structure, fc))
+    elif beh_effective != "ok":
         if d.structure != fc:
             out.append(viol("not-fcfs:%s" % beh_effective, "%s: solver did not deliver an optimum but the result is not the FCFS encoding" % tag, d.structure, fc))
     else:
@@ -139,7 +156,7 @@ def run_case(case):
     out.extend(pre)
     for conf in configurations():
         kind, beh = conf
-        eff = beh if beh in seams.BEHAVIOURS else ("raise" if beh == "absent-binary" else (beh.split("-")[0] if beh.endswith("-unassigned") else "none"))
+        eff = beh if beh in seams.BEHAVIOURS else ("raise" if beh == "absent-binary" else (beh.split("-")[0] if beh.endswith("-unassigned") else ("claims-optimal" if beh.startswith("claims-optimal") else ("real-cbc-stopped" if beh == "cbc-maxit0" else "none"))))
         if not knotted:
             eff_j = "ok" if eff in seams.BEHAVIOURS else eff  # solver is not needed: any behaviour must give the round-bracket answer
         b, r, calls = execute(case, conf)
